@@ -14,7 +14,8 @@ DESIGN_REF = '5/C05'
 TECHNIQUE = ('bounded exhaustive enumeration of inputs (all per-bin value/error combinations over a small alphabet x levels x '
              'degrees of freedom x shapes x numbers of datasets) of the real TestStudent against a scalar reference model, plus '
              'every instance of each metamorphic relation inside the enumerated set')
-RULE = ('per (alpha, ndf): every bin (v1, e1, v2, e2) over the value and error alphabets, evaluated once as a cell of one array '
+RULE = ('[also: the same test object evaluated again after a bin of a dataset was edited in place, for every ordered pair of bin classes] ' +
+        'per (alpha, ndf): every bin (v1, e1, v2, e2) over the value and error alphabets, evaluated once as a cell of one array '
         'dataset, once as a scalar dataset and once as a cell of a square 2-d array stored Fortran-ordered / as a transposed view / strided '
         '(same t, p and decision as in the C-ordered array); every assignment of the bin classes {pass (t = 0), fail (|t| = 7e6), undefined[, near (t = -0.35, verdict from the reference)]} to the cells of the '
         'shapes (), (1,), (3,), (2,2), (1,2,1) for 1-3 compared datasets; relations: swap of the datasets, common rescaling by 2 and '
